@@ -153,6 +153,11 @@ def evaluate(c):
                         _, _, g1 = obs.far(ma, zen, azi)
                         msk = g0 > -200
                         chk('SCALE-G-' + tag, float(np.abs(g0 - g1)[msk].max()) if msk.any() else 0.0, 1e-6, 'dBi changes under scaling')
+                        # the same with a power level and distance requested for the V/m table
+                        _, _, g2 = obs.far(m, zen, azi, pwr=100., dist=1000.)
+                        _, _, g3 = obs.far(ma, zen, azi, pwr=100., dist=1000.)
+                        chk('SCALE-G-pwr-' + tag, float(max(np.abs(g0 - g2)[msk].max(), np.abs(g0 - g3)[msk].max())) if msk.any() else 0.0, 1e-6,
+                            'dBi changes under scaling when a power level is requested')
             # report
             if vi % 5 == 0:
                 nt += 1
